@@ -558,7 +558,7 @@ def chunk_width(rep, rule, idx, c, SH=None):
                   f"created with granularity {ir.show(a0) if a0 else None}; expected self.bus.data_width")
 
 
-def reset_discipline(rep, rule, idx, class_specs, allowed=(), allowed_init=()):
+def reset_discipline(rep, rule, idx, class_specs, allowed=(), allowed_init=(), allowed_role=None):
     """Every register a property's initial-state clause relies on takes part in the domain reset: no Signal(...) /
     Signal.like(...) created by the given classes passes reset_less (other than a literal False).  `allowed` lists
     (class qual, assigned name) pairs that are reset-less on purpose, with the reason given where the rule is called."""
@@ -593,6 +593,8 @@ def reset_discipline(rep, rule, idx, class_specs, allowed=(), allowed_init=()):
                                 rep.unk(rule, f.site, f"{name} = {fn}(**...)", "keyword arguments are not literal; reset_less cannot be read off")
                             if k.arg == "reset_less" and not (isinstance(k.value, _ast.Constant) and k.value.value is False):
                                 key = (cls.qual, name)
+                                if name is not None and allowed_role is not None and allowed_role(f, name):
+                                    continue
                                 if name is not None and key not in allowed:
                                     bad.append((f.site, name, _ast.unparse(k.value), call.lineno))
                             if k.arg in ("init", "reset") and name is not None and fn == "Signal":
